@@ -102,6 +102,23 @@ def conclude(ctx, prop, results, wall):
                 failures.append(dict(f, unit=r["unit"], engine=r["engine"]))
     violations, known_hit, stale = [], [], []
     lines = []
+    # undecided units: no proof either way.  If a counterexample search through the real public API is registered for the
+    # unit and finds a failing input, that input IS a violation (replayed on the real code); otherwise the unit stays undecided.
+    for r in list(undecided):
+        spec = r.get("fallback_search")
+        if not spec:
+            continue
+        import replay_runner
+        f = {"obligation": "%s#not-processed-but-failing-input-found" % r["unit"], "props": None, "message": "the unit could not be processed (%s); the registered search through the real API found a failing input" % (r.get("undecided_reason") or "")[:300],
+             "item": r["unit"], "detail": r.get("undecided_reason"), "search": spec, "unit": r["unit"], "engine": r["engine"]}
+        try:
+            w = replay_runner.search(ctx, spec, f)
+        except Exception as e:
+            w = None
+        if w is not None:
+            f["counterexample_from_search"] = w
+            failures.append(f)
+            undecided.remove(r)
     for f in failures:
         k = known_for(ctx, f["obligation"])
         if k is not None:
@@ -118,7 +135,9 @@ def conclude(ctx, prop, results, wall):
         # unlisted violation
         rp = None
         found_input = f.get("counterexample")
-        if found_input is None and f.get("search"):
+        if found_input is None and f.get("counterexample_from_search") is not None:
+            found_input = f["counterexample_from_search"]
+        elif found_input is None and f.get("search"):
             import replay_runner
             try:
                 found_input = replay_runner.search(ctx, f["search"], f)
